@@ -163,6 +163,9 @@ def step (d : D) (line : String) : D × String :=
       finish d (fireStanza beh st c { name := some nm, ns, type := ty, id, children := ch })
     | _, _, _, _, _, _ => bad d
   | ["firetimed"] => finish d (fireTimed beh st)
+  -- all connections released, the timers run, fresh connections are created (= `clear; firetimed`:
+  -- fresh connections have no timed handlers, the context-wide list is untouched by `clear`)
+  | ["firetimed0"] => finish d (do let st1 ← Handler.step beh st .clear; fireTimed beh st1)
   | ["state", c, v] =>
     match num c NC with
     | some c =>
